@@ -323,7 +323,10 @@ func TestVerifTok(t *testing.T) {
 		n++
 	}
 	// alignment stream: multi-byte and invalid sequences placed across bytes 1016..1028 of the buffer
-	pieces := []string{"é", "—", "日", "𝔘", "\xe2\x80", "\xf0\x9f\x98", "\xc3", "a-\n", "&amp;", "x"}
+	pieces := []string{"é", "—", "日", "𝔘", "\xe2\x80", "\xf0\x9f\x98", "\xc3", "a-\n", "&amp;", "x",
+		// multi-byte characters INSIDE a word, where a spurious extra rune changes the word: a typographic
+		// dash before a line break (hyphen join), dashes inside a date line and a number, an accent
+		"limi—\ntation", "2020‐01‐02\nx", "02110–1301", "caf\u00e9s", "ab‒\n  cd"}
 	npad := 14
 	if vthorough() {
 		npad = 40
